@@ -465,3 +465,45 @@ func VerifMuxRead(m *Muxer, rel bool, id byte) (data []byte, ok bool) {
 
 // VerifMinRTT is the minimum RTT estimate (the reaper waits 4*RTT before freeing a locally opened reliable id).
 func VerifMinRTT() time.Duration { return minRTT }
+
+// VerifTubeStateName returns the life-cycle state of a reliable tube (diagnostics and scenario set-up:
+// waiting until a FIN has been acknowledged before the next scripted step).
+func VerifTubeStateName(r *Reliable) string {
+	r.l.Lock()
+	defer r.l.Unlock()
+	switch r.tubeState {
+	case created:
+		return "created"
+	case initiated:
+		return "initiated"
+	case closeWait:
+		return "closeWait"
+	case lastAck:
+		return "lastAck"
+	case finWait1:
+		return "finWait1"
+	case finWait2:
+		return "finWait2"
+	case closing:
+		return "closing"
+	case closed:
+		return "closed"
+	}
+	return "?"
+}
+
+// VerifMuxForceCloseKeepRTT closes the reliable tube (true, id) like VerifMuxForceClose but leaves its RTT
+// estimate alone and returns it: the reaper must then keep the id reserved for at least 4*RTT, the time the
+// peer may spend in lastAck.
+func VerifMuxForceCloseKeepRTT(m *Muxer, id byte) (time.Duration, bool) {
+	t, ok := m.getTube(true, id)
+	if !ok {
+		return 0, false
+	}
+	r := t.(*Reliable)
+	r.l.Lock()
+	rtt := r.sender.RTT
+	r.enterClosedState()
+	r.l.Unlock()
+	return rtt, true
+}
